@@ -7,8 +7,9 @@ import GoUefi.Model.Pkcs7
 namespace GoUefi.GenPkcs7
 open GoUefi GoUefi.Gen
 
-/-- the error `Verify` wraps a signer error in -/
-def wrapErr : GoErr := some "fmt.Errorf:failed validating signature: %w"
+/-- the error `Verify` returns for a signer error `e`: `fmt.Errorf("…: %w", err)`, which wraps it -/
+def wrapStr (e : String) : String := if e.startsWith "%w:" then e else "%w:" ++ e
+def wrapErr (e : String) : GoErr := some (wrapStr e)
 
 theorem isCertificate_iff (s : pkcs7.signerinfo) (c : X509Cert) :
     s.isCertificate c = true ↔
@@ -35,9 +36,9 @@ theorem loop_skip (X : pkcs7.Ext) (p : pkcs7.PKCS7) (c : X509Cert) (s : pkcs7.si
 theorem loop_err (X : pkcs7.Ext) (p : pkcs7.PKCS7) (c : X509Cert) (s : pkcs7.signerinfo)
     (r : List pkcs7.signerinfo) (h : s.isCertificate c = true) (b : Bool) (e : String)
     (hv : X.signerinfo_verify s c p.ContentInfo = (b, some e)) :
-    pkcs7.PKCS7.Verify.loop1 X p c (s :: r) = Loop.ret (false, wrapErr) := by
+    pkcs7.PKCS7.Verify.loop1 X p c (s :: r) = Loop.ret (false, wrapErr e) := by
   rw [pkcs7.PKCS7.Verify.loop1]
-  simp [h, hv, wrapErr]
+  simp [h, hv, wrapErr, wrapStr, goWrap]
 
 theorem loop_false (X : pkcs7.Ext) (p : pkcs7.PKCS7) (c : X509Cert) (s : pkcs7.signerinfo)
     (r : List pkcs7.signerinfo) (h : s.isCertificate c = true)
@@ -67,7 +68,7 @@ theorem pair_cases (v : Bool × GoErr) :
 theorem loop_shape (X : pkcs7.Ext) (p : pkcs7.PKCS7) (c : X509Cert) (l : List pkcs7.signerinfo) :
     pkcs7.PKCS7.Verify.loop1 X p c l = Loop.done () ∨
     pkcs7.PKCS7.Verify.loop1 X p c l = Loop.ret (true, none) ∨
-    pkcs7.PKCS7.Verify.loop1 X p c l = Loop.ret (false, wrapErr) := by
+    ∃ e, pkcs7.PKCS7.Verify.loop1 X p c l = Loop.ret (false, some e) := by
   induction l with
   | nil => exact .inl (loop_nil X p c)
   | cons s r ih =>
@@ -77,7 +78,7 @@ theorem loop_shape (X : pkcs7.Ext) (p : pkcs7.PKCS7) (c : X509Cert) (l : List pk
       rcases pair_cases (X.signerinfo_verify s c p.ContentInfo) with hv | hv | ⟨b, e, hv⟩
       · rw [loop_true X p c s r h hv]; exact .inr (.inl rfl)
       · rw [loop_false X p c s r h hv]; exact ih
-      · rw [loop_err X p c s r h b e hv]; exact .inr (.inr rfl)
+      · rw [loop_err X p c s r h b e hv]; exact .inr (.inr ⟨_, rfl⟩)
 
 /-- the result of `Verify`, from the loop's -/
 def finish : Loop (Bool × GoErr) Unit → Bool × GoErr
